@@ -221,6 +221,29 @@ macro_rules! upair {
         }
     };
 }
+/// unsigned source, signed destination: sqrt and powi exist (log2/ln/exp/pow need a signed source)
+macro_rules! uspair {
+    ($S:ty, $D:ty) => {
+        Pair {
+            s: <$S as Lay>::LAYOUT,
+            d: <$D as Lay>::LAYOUT,
+            f1: |func, a| {
+                announce(func, <$S as Lay>::LAYOUT, <$D as Lay>::LAYOUT, a, 0);
+                let x = <$S as Lay>::from_raw(a);
+                match func {
+                    0 => Some(run_res::<$D, _>(|| tr::sqrt::<$S, $D>(x))),
+                    _ => None,
+                }
+            },
+            pow: None,
+            powi: Some(|a, n| {
+                announce(5, <$S as Lay>::LAYOUT, <$D as Lay>::LAYOUT, a, n as u32 as u128);
+                let x = <$S as Lay>::from_raw(a);
+                run_res::<$D, _>(|| tr::powi::<$S, $D>(x, n))
+            }),
+        }
+    };
+}
 macro_rules! trig {
     ($T:ty) => {
         Trig {
@@ -265,7 +288,10 @@ mod t3 {
 mod t4 {
     use super::*;
     pub fn pairs() -> Vec<Pair> {
-        vec![upair!(U9F23, U9F23), upair!(U9F55, U9F55), upair!(U32F32, U32F32), upair!(U9F119, U9F119), upair!(U64F64, U64F64), upair!(U96F32, U96F32), upair!(U105F23, U105F23), upair!(U9F23, U64F64), upair!(U32F32, U96F32)]
+        vec![
+            upair!(U9F23, U9F23), upair!(U9F55, U9F55), upair!(U32F32, U32F32), upair!(U9F119, U9F119), upair!(U64F64, U64F64), upair!(U96F32, U96F32), upair!(U105F23, U105F23), upair!(U9F23, U64F64), upair!(U32F32, U96F32),
+            uspair!(U9F23, I32F32), uspair!(U32F32, I64F64), uspair!(U9F23, I64F64), uspair!(U32F32, I96F32),
+        ]
     }
 }
 mod t5 {
@@ -499,7 +525,11 @@ impl Acc {
         let kf = if diff == "accuracy" && case.starts_with("trans pow ") {
             let p: Vec<&str> = case.split_whitespace().collect();
             let (s, d) = (Layout::parse(p[2]).unwrap(), Layout::parse(p[3]).unwrap());
-            if pow_exponent_error_amplified(s, d, hexv(p[4]), hexv(p[5])) {
+            let explained = match observed.strip_prefix("Ok(0x").and_then(|h| h.strip_suffix(')')).and_then(|h| u128::from_str_radix(h, 16).ok()) {
+                Some(r) => pow_result_explained_by_log_error(s, d, hexv(p[4]), hexv(p[5]), r),
+                None => false,
+            };
+            if explained && pow_exponent_error_amplified(s, d, hexv(p[4]), hexv(p[5])) {
                 Some(KF_POW)
             } else {
                 None
@@ -847,7 +877,7 @@ fn cmd_run(args: &Args) {
             if !serves(prop, func) {
                 continue;
             }
-            if !p.s.signed && func != 0 {
+            if !p.s.signed && !(func == 0 || (func == 5 && p.powi.is_some())) {
                 continue;
             }
             let nchunks = if p.s.w == 128 || func >= 4 || tier == Tier::Thorough { 8 } else { 2 };
